@@ -112,6 +112,10 @@ def safe_get(obj, instance, owner):
 def iter_call(obj):
     while True:
         yield obj
+        if isinstance(obj, type):
+            # obj.__call__ is what *instances* of obj do when called;
+            # calling obj itself goes through its metaclass
+            return
         try:
             obj = obj.__call__
             obj.__code__.co_filename
